@@ -63,6 +63,7 @@ Definition low_src (o : addsrc) (st : lst) : res (list instr * rop * list nat * 
       let* (t, st1) := take st in
       Ok ([ILoad (R t) b jx'], PReg (R t), [t], st1)
   | ALoop v => match alook v (l_lv st) with Some r => Ok ([], PReg (R r), [], st) | None => Err EIll end
+  | AReg r => match rf_lookup r st with Some m => Ok ([], PReg m, [], st) | None => Err EIll end
   end.
 
 Definition add_instr (d x : reg) (y : rop) (m : option Z) : instr :=
@@ -178,18 +179,11 @@ Fixpoint lower_stmt (fd : bool) (s : stmt) (st : lst) {struct s} : res (list sir
           mkL (l_act st1) (l_peak st1) (l_mused st1) (l_q st1) (l_next st1) (l_decl st1)
               (l_ret st1 ++ [R k]) ((r, R k) :: l_rf st1) (l_lv st1) (l_len st1) (l_mscr st1))
       end
-  | SLoop cb v None start stop step body =>
+  | SLoop cb v oreg start stop step body =>
       match alook v (l_lv st) with Some _ => Err EIll | None =>
-      let* (r, st1) := take st in
+      let* (r, st1) := take_at oreg st in
       let* (cbody, st2) := lower_block fd body (bind_lvr v r st1) in
       let st3 := release r (with_lvs st2 (l_lv st)) in
-      if is_nil cbody then Ok ([], st3) else Ok ([XLoop (R r) start stop step cbody], st3)
-      end
-  | SLoop cb v (Some k) start stop step body =>
-      match alook v (l_lv st) with Some _ => Err EIll | None =>
-      let* (r, st1, mine) := claim k st in
-      let* (cbody, st2) := lower_block fd body (bind_lvr v r st1) in
-      let st3 := (if mine then release r (with_lvs st2 (l_lv st)) else with_lvs st2 (l_lv st)) in
       if is_nil cbody then Ok ([], st3) else Ok ([XLoop (R r) start stop step cbody], st3)
       end
   | SForeach enum v a body =>
